@@ -119,6 +119,10 @@ def is_crash(o):
     return o is None or o.startswith("CRASH") or o == "TIMEOUT"
 
 
+def is_skip(o):
+    return o == "SKIP"      # not executed: the function had crashed 5 times before (each crash is reported)
+
+
 def judge_parse(want, got, model_val):
     """-> None (agree) or obs_class"""
     if got == want:
@@ -239,10 +243,13 @@ def run(tier, seed):
         obs = L.run_table(bparse, table, "parse%d" % stats["chunks"], timeout=1800)
         for (case, var, want, detail), got, call in zip(meta, obs, table):
             base, mv, syms = case
-            oc = judge_parse(want, got, mv)
+            oc = None if is_skip(got) else judge_parse(want, got, mv)
+            stats["calls_skipped_after_crashes"] = stats.get("calls_skipped_after_crashes", 0) + is_skip(got)
             if oc:
                 stats["disagreements"] += 1
                 rep.disagree(dict(base, variant=var), oc, dict(detail, syms=list(syms) if syms else None, function=call[0], want=want, got=got, model=mv))
+            elif is_skip(got):
+                pass
             elif want.startswith("f:") and len(keep["acc"]) < 200:
                 keep["acc"].append((call, got))
             elif want == "E:ValueError" and len(keep["rej"]) < 200:
@@ -267,7 +274,8 @@ def run(tier, seed):
         feat = L.shape_features(syms)
         base = {"part": "parse", "src": src, "mode": mode, "want": "E:ValueError" if not ref["acc"] else ref["kind"], "model": model,
                 "und_after_exp_sign": feat["und_after_exp_sign"], "gs_in_outer_space": feat["gs_in_outer_space"],
-                "non_ascii": feat["non_ascii"], "has_underscore": feat["has_underscore"]}
+                "non_ascii": feat["non_ascii"], "has_underscore": feat["has_underscore"],
+                "ws_core_len": feat["ws_core_len"] if mode == "str" else -1}
         case = (base, model_val, syms)
         bcase = (dict(base, mode="bytes"), model_val, syms) if mode == "str" else case
         stats["symbol_strings"] += 1
@@ -443,7 +451,7 @@ def run(tier, seed):
     n_ops_bad = 0
     dev_seen = {}
     for (desc, want, mv, detail), got, call in zip(ometa, oobs, otable):
-        oc = judge_op(want, got, mv)
+        oc = None if is_skip(got) else judge_op(want, got, mv)
         if desc["model"] == "deviates":
             dev_seen[desc["cause"]] = dev_seen.get(desc["cause"], 0) + 1
         if oc:
@@ -493,3 +501,31 @@ def run(tier, seed):
                                      "cdivision=True variants are outside the property (C semantics by request)"],
                         violations=rep.n_violations())
     return rc
+
+
+def replay(path, seed):
+    """Re-execute the cases of a replay file on freshly built modules; exit 1 while any still disagrees."""
+    with open(path) as f:
+        rec = json.load(f)
+    core.scratch(); core.subdir("build"); core.snapshot()
+    bparse, bops = core.build_many([core.BuildSpec("c06parse", PARSE_SRC), core.BuildSpec("c06ops", ops_source())], None, 2)
+    if not (bparse.ok and bops.ok):
+        print("build failed: %s" % ((bparse.errors or "") + (bops.errors or ""))[-2000:])
+        return 1
+    bad = 0
+    for case in rec["cases"]:
+        fn = case["function"]
+        if rec["descriptor"]["part"] == "ops":
+            args = [["f", case["a"]]] + ([["f", case["b"]]] if case.get("b") is not None else [])
+            if fn.split("_")[1] == "k":
+                args = args[:1]
+            elif fn.split("_")[1] == "kl":
+                args = args[1:]
+            got = L.run_table(bops, [[fn] + args], "replay")[0]
+        else:
+            arg = case["input"] if "input" in case else ([case["as"], case["input_hex"]] if "input_hex" in case else ["py", case["arg"]])
+            got = L.run_table(bparse, [[fn, arg]], "replay")[0]
+        print("%s(%s): want %s, got %s%s" % (fn, json.dumps({k: case[k] for k in ("input", "input_hex", "a", "b", "arg") if k in case}),
+                                              case["want"], got, "" if got == case["want"] else "   <-- disagrees"))
+        bad += got != case["want"]
+    return 1 if bad else 0
